@@ -1208,3 +1208,60 @@ def _run_pretty(pretty_fn, value, ctx, trailing_comment=None):
     if type(value) in _ACYCLIC_TYPES:
         return _run_pretty_visited(pretty_fn, value, ctx, trailing_comment)
     if ctx.is_visited(value):''')])
+
+# ----------------------------------------------------------------------------- C17
+DC = 'prettyprinter/extras/dataclasses.py'
+AT = 'prettyprinter/extras/attrs.py'
+add('C17', 'breaker', 'kwargs-before-args', [(P, 'allarg_docs = [*argdocs, *kwargdocs]', 'allarg_docs = [*kwargdocs, *argdocs]')], 'C17.a')
+add('C17', 'breaker', 'kwargs-sorted', [(P, '''    kwargitems = (
+        kwargs.items()
+        if isinstance(kwargs, (OrderedDict, dict))
+        else kwargs
+    )''', '''    kwargitems = sorted(
+        kwargs.items()
+        if isinstance(kwargs, (OrderedDict, dict))
+        else kwargs
+    )''')], 'C17.b')
+add('C17', 'breaker', 'args-reversed', [(P, '''            pretty_python_value(arg, nested_ctx)
+            for arg in args''', '''            pretty_python_value(arg, nested_ctx)
+            for arg in reversed(args)''')], 'C17.b')
+add('C17', 'breaker', 'last-arg-comma-kept', [(P, 'part = concat([doc, NIL if last else COMMA])', 'part = concat([doc, COMMA])')], 'C17.a')
+add('C17', 'breaker', 'kwarg-equals-missing-when-commented', [(P, '''            comment_doc(
+                concat([
+                    keyword_arg(binding),
+                    ASSIGN_OP,
+                    doc.doc
+                ]),''', '''            comment_doc(
+                concat([
+                    keyword_arg(binding),
+                    doc.doc
+                ]),''')], 'C17.a')
+add('C17', 'breaker', 'hug-drops-paren', [(P, '''            concat([
+                fndoc,
+                LPAREN,
+                argdocs[0],
+                RPAREN
+            ])''', '''            concat([
+                fndoc,
+                LPAREN,
+                argdocs[0],
+            ])''')], 'C17.a')
+add('C17', 'breaker', 'pretty-call-drops-kwargs', [(P, '    return pretty_call_alt(ctx, fn, args, kwargs)', '    return pretty_call_alt(ctx, fn, args)')], 'C17.b')
+add('C17', 'breaker', 'dataclass-ignores-repr-flag', [(DC, '''        if not field_def.repr:
+            continue
+''', '')], 'C17.c')
+add('C17', 'breaker', 'dataclass-eq-for-ne', [(DC, '''            if field_def.default != getattr(value, field_def.name):
+                display_attr = True''', '''            if field_def.default == getattr(value, field_def.name):
+                display_attr = True''')], 'C17.c')
+add('C17', 'breaker', 'dataclass-name-value-crosswired', [(DC, 'kwargs.append((field_def.name, getattr(value, field_def.name)))', 'kwargs.append((field_def.name, getattr(value, field_defs[0].name)))')], 'C17.c')
+add('C17', 'breaker', 'attrs-shows-defaults', [(AT, '''        else:
+            if attribute.default != getattr(value, attribute.name):
+                display_attr = True''', '''        else:
+            display_attr = True''')], 'C17.c')
+add('C17', 'breaker', 'attrs-reversed-order', [(AT, '    for attribute in attributes:', '    for attribute in reversed(attributes):')], 'C17.c')
+add('C17', 'breaker', 'dataclass-prints-base-class', [(DC, 'return pretty_call(ctx, cls, **OrderedDict(kwargs))', 'return pretty_call(ctx, cls.__mro__[0].__base__, **OrderedDict(kwargs))')], 'C17.c')
+add('C17', 'twin', 'allargs-chain', [(P, 'allarg_docs = [*argdocs, *kwargdocs]', 'allarg_docs = list(chain(argdocs, kwargdocs))')])
+add('C17', 'twin', 'dataclass-flag-inline', [(DC, '''        if display_attr:
+            kwargs.append((field_def.name, getattr(value, field_def.name)))''', '''        if not display_attr:
+            continue
+        kwargs.append((field_def.name, getattr(value, field_def.name)))''')])
